@@ -53,9 +53,11 @@ def validator(fn):
     if fn in table:
         return table[fn], table[fn][1:]
     if getattr(fn, "__name__", "") == "_is_one_of" and fn.__closure__:
-        choices = [c.cell_contents for c in fn.__closure__ if isinstance(c.cell_contents, list)]
-        if len(choices) == 1 and all(isinstance(c, str) for c in choices[0]):
-            return f"(.choices {llist(map(lstr, choices[0]))})", {"choices": choices[0]}
+        cells = dict(zip(fn.__code__.co_freevars, (c.cell_contents for c in fn.__closure__)))
+        choices = cells.get("choices")
+        multiple = cells.get("multiple")
+        if isinstance(choices, list) and all(isinstance(c, str) for c in choices) and isinstance(multiple, bool):
+            return f"(.choices {llist(map(lstr, choices))} {lbool(multiple)})", {"choices": choices, "multiple": multiple}
     name = getattr(fn, "__qualname__", repr(fn))
     return f"(.custom {lstr(name)})", {"custom": name}
 
